@@ -1718,6 +1718,177 @@ def stream_render(ctx):
 
 
 # --------------------------------------------------------------------------------------------
+# stream tokenizer-pipeline: the real constructor against text -> tokenizer MODEL -> handlers -> construction machine
+# --------------------------------------------------------------------------------------------
+MS_KNOWN = {"temp", "cdata", "ignore", "include", "rcdata", "if", "else", "endif"}
+# `RaisesAt` (Model/EnvelopeTokenizer.lean) written down independently: `<![` + (a character that is no ASCII letter | a name and whitespace,
+# both taken greedily without giving back, + one more character, the lowered name no known keyword)
+RAISES_AT = re.compile(r"<!\[(?:[^a-zA-Z]|([a-zA-Z][-_.a-zA-Z0-9]*+)\s*+.)", re.S)
+MS_KEYWORDS = ["CDATA", "cdata", "CdAtA", "temp", "TEMP", "ignore", "include", "INCLUDE", "rcdata", "RCDATA", "if", "IF", "else", "endif", "EndIf",
+               "foo", "x", "cdatax", "CDATA1", "if-x", "if.x_y", "i", "ifx", "e", "İf", "ſ", "Kif", "data", "1", "", " ", " if", "-", "_a", "é", "[",
+               "]", ">", "\x00", "\n", "cdata ", "doctype", "--"]
+MS_TAILS = ["", " ", "[", "[x", "[x]]>", "[x]>", " x]>", "]>", "]]>", "]", ">", "\n", "\n]>", "[x] ]>", "[x]\n]\n>", "[x]]", " ]>", "\x0c", "<p>", "&amp;"]
+MS_CONTEXTS = [lambda s: "a" + s, lambda s: s + "<p>z", lambda s: "<p>" + s + "</p>", lambda s: "<!--" + s + "-->", lambda s: "<!--" + s,
+               lambda s: "<![CDATA[" + s + "]]>", lambda s: "<![CDATA[" + s, lambda s: "<script>" + s + "</script>", lambda s: "<script>" + s,
+               lambda s: "<style>" + s + "</style>x", lambda s: "<STYLE>" + s + "</sTyle >" + s, lambda s: "<!" + s, lambda s: "<!" + s + ">",
+               lambda s: "<a b='" + s + "'>", lambda s: "<a b=" + s + ">", lambda s: "<a " + s + ">", lambda s: "<?" + s + "?>", lambda s: "<?" + s,
+               lambda s: "</" + s + ">", lambda s: "&" + s, lambda s: "&amp;" + s, lambda s: "&#65" + s, lambda s: "<!DOCTYPE " + s + ">",
+               lambda s: "<!DOCTYPE " + s, lambda s: "<textarea>" + s + "</textarea>", lambda s: "<title>" + s, lambda s: s + s,
+               lambda s: "<![if x]>" + s + "<![endif]>", lambda s: "<p>a</p>\n" + s, lambda s: "<" + s, lambda s: "<!-" + s, lambda s: "﻿ \n" + s,
+               lambda s: "<script/>" + s, lambda s: "<br/>" + s + "<br>", lambda s: "<a b='x" + s, lambda s: "</p " + s]
+
+
+def raises_at(text):
+    """indices i at which `<![` stands and `RaisesAt (text.drop i)` holds (Python statement of the Lean predicate)"""
+    out = []
+    i = text.find("<![")
+    while i >= 0:
+        m = RAISES_AT.match(text, i)
+        if m and (m.group(1) is None or m.group(1).lower() not in MS_KNOWN):
+            out.append(i)
+        i = text.find("<![", i + 1)
+    return out
+
+
+def pipeline_real(text):
+    from bs4.exceptions import ParserRejectedMarkup
+    from . import c04
+    try:
+        return "tree|" + c04.shape(c04.real_parse(text, {}))
+    except ParserRejectedMarkup:
+        return "prm"
+    except Exception as ex:  # noqa: BLE001
+        return f"other:{type(ex).__name__}"
+
+
+def pipeline_model(drv, texts):
+    """[(model reply of `c06 pipe` or 'unescape-raises', reply of `c06 raises`)]"""
+    from . import c04, tk
+    from .common import cps
+    needs = drv.ask([f"tk needs {cps(t) or '-'}" for t in texts])
+    cfg = c04.cfg_tokens({})
+    tabs = []
+    for n in needs:
+        try:
+            tabs.append(tk._tab(n))
+        except ValueError:          # html.unescape on an attribute value with an over-long decimal reference: outside the model (measured)
+            tabs.append(None)
+    live = [(t, tb) for t, tb in zip(texts, tabs) if tb is not None]
+    reps = iter(drv.ask([f"c06 pipe {cfg} {tb} {cps(t) or '-'}" for t, tb in live]))
+    pipe = [next(reps) if tb is not None else "unescape-raises" for tb in tabs]
+    rz = drv.ask([f"c06 raises {cps(t) or '-'}" for t in texts])
+    return list(zip(pipe, rz))
+
+
+def gen_marked_sections(ctx):
+    out = []
+    for kw in MS_KEYWORDS:
+        for tail in MS_TAILS:
+            out.append(("ms-alone", "<![" + kw + tail))
+    rest = [(ci, kw, tail) for ci in range(len(MS_CONTEXTS)) for kw in MS_KEYWORDS for tail in MS_TAILS]
+    r = ctx.rng("tokenizer-pipeline", "contexts")
+    if not ctx.thorough:
+        rest = r.sample(rest, 3000)
+    for ci, kw, tail in rest:
+        out.append((f"ms-context", MS_CONTEXTS[ci]("<![" + kw + tail)))
+    return out
+
+
+def stream_tokenizer_pipeline(ctx, drv, cases):
+    """`Props/C06.lean`, section TokenizerModel, against the real constructor: for str texts of every C06 generator (bytes inputs as their latin-1
+    text) and a directed family around `<![`, BeautifulSoup(text, 'html.parser') and `feedClose` (Lean: tokenizer model -> handlers -> machine)
+    must agree on the outcome class and on the tree; the Python statement of `RaisesAt` must agree with the model's (`c06 raises`); and the two
+    directions proved are checked on the real code directly: rejected => some index has RaisesAt (`rejected_only_if_marked_section`); RaisesAt at
+    the first `<`/`&` of the text => rejected (`rejected_if_plain_prefix`)."""
+    name = "tokenizer-pipeline"
+    seen, texts = set(), []
+
+    def add(kind, t):
+        if len(t) <= 3000 and t.count("<") <= 250 and t not in seen:
+            seen.add(t)
+            texts.append((kind, t))
+        else:
+            ctx.count(f"{name}:skipped:" + ("duplicate" if t in seen else "too-long-or-deep"))
+
+    for kind, t in gen_marked_sections(ctx):
+        add(kind, t)
+    # html.unescape raising inside parse_starttag (over-long decimal reference in an attribute value): outside the model, rejected by the code
+    for t in ('<a b="&#' + "9" * 4301 + ';">x', "<p>ok</p><a b=&#" + "1" * 5000 + ";>", "<a b='&#" + "9" * 4300 + ";'>fine"):
+        seen.add(t)
+        texts.append(("unescape-longref", t))
+    pool = []
+    for c in cases:
+        m = c[1]
+        if isinstance(m, str):
+            pool.append(("gen:" + str(c[0]), str.__str__(m)))
+        elif isinstance(m, (bytes, bytearray)):
+            pool.append(("gen-bytes-as-latin1:" + str(c[0]), bytes(m).decode("latin-1")))
+    r = ctx.rng(name, "sample")
+    limit = ctx.n(7000, 120000)
+    if len(pool) > limit:
+        pool = [pool[i] for i in sorted(r.sample(range(len(pool)), limit))]
+    for kind, t in pool:
+        add(kind, t)
+    # every generated text once more with an offending / a harmless section spliced in at a random position
+    for i, (kind, t) in enumerate(list(texts[-ctx.n(1500, 30000):])):
+        rr = ctx.rng(name, "splice", i)
+        sec = "<![" + rr.choice(MS_KEYWORDS) + rr.choice(MS_TAILS)
+        p = rr.randint(0, len(t))
+        add("spliced", t[:p] + sec + t[p:])
+    B = 4000
+    for off in range(0, len(texts), B):
+        chunk = texts[off:off + B]
+        reps = pipeline_model(drv, [t for _, t in chunk])
+        for (kind, t), (model, mraises) in zip(chunk, reps):
+            real = pipeline_real(t)
+            cls = real.split("|", 1)[0].split(":")[0]
+            ctx.count(f"{name}:texts")
+            ctx.count(f"{name}:kind:{kind.split(':')[0]}")
+            ctx.count(f"{name}:real:{cls}")
+            py = raises_at(t)
+            case = {"op": "pipe", "text": t, "kind": kind}
+            ctx.case(("TP", t) if ("<![" in t or cls != "tree") else None, sample={"text": t[:80], "real": real[:80]})
+            if cls == "other":
+                if not capped(ctx, name, real):
+                    ctx.violation(f"BeautifulSoup({t[:60]!r}, 'html.parser') raised {real[6:]}", case=case, expected="a tree or ParserRejectedMarkup",
+                                  observed=real, stream=name)
+                continue
+            if model == "unescape-raises":
+                ctx.count(f"{name}:html.unescape-raises(measured, outside the model)")
+                if cls != "prm":
+                    ctx.violation("html.unescape raises ValueError on an attribute value of this text but the constructor did not reject it",
+                                  case=case, observed=real[:300], stream=name, no_failing_input=True)
+                continue
+            want = ",".join(map(str, py)) or "-"
+            if mraises != want:
+                ctx.corr_disagreements += 1
+                ctx.violation("Lean parseMarkedSection/RaisesAt and the Python statement of RaisesAt disagree on where a marked section raises",
+                              case=case, expected=want, model=mraises, stream=name, no_failing_input=True)
+            if py:
+                ctx.count(f"{name}:has-RaisesAt-index:" + cls)
+            if cls == "prm" and not py:
+                ctx.violation("rejected although no index carries `<![` + non-letter / unknown complete keyword (rejected_only_if_marked_section "
+                              "fails of the real tokenizer)", case=case, observed=real, stream=name, no_failing_input=True)
+            first = min((i for i in (t.find("<"), t.find("&")) if i >= 0), default=-1)
+            if first >= 0 and first in py:
+                ctx.count(f"{name}:RaisesAt-at-first-markup")
+                if cls != "prm":
+                    ctx.violation("the first markup of the text is a raising marked section but the constructor returned a tree "
+                                  "(rejected_if_plain_prefix fails of the real tokenizer)", case=case, observed=real[:300], stream=name,
+                                  no_failing_input=True)
+            if model.split("|", 1)[0] != cls:
+                ctx.corr_disagreements += 1
+                if not capped(ctx, name, "class"):
+                    ctx.violation("the constructor and the model pipeline (tokenizer model -> handlers -> machine) disagree on tree / ParserRejectedMarkup",
+                                  case=case, observed=real[:300], model=model[:300], stream=name, no_failing_input=True)
+            elif model != real:
+                ctx.corr_disagreements += 1
+                if not capped(ctx, name, "tree"):
+                    ctx.violation("the constructor and the model pipeline build different trees", case=case, observed=real[:2000], model=model[:2000],
+                                  stream=name, no_failing_input=True)
+
+
+# --------------------------------------------------------------------------------------------
 # outside the quantifier: recorded only
 # --------------------------------------------------------------------------------------------
 def record_outside(ctx):
@@ -1929,6 +2100,7 @@ def run(ctx: Ctx):
     stream_fault(ctx, drv)
     stream_sequel(ctx)
     stream_render(ctx)
+    stream_tokenizer_pipeline(ctx, drv, cases)
     stream_inject(ctx, drv)
     record_outside(ctx)
 
@@ -1973,6 +2145,16 @@ def replay(path):
         print("input:", describe(markup), kwargs, "| charset-bearing attribute values:", nvals)
         print("problem:", problem)
         return 1 if problem else 0
+    if c.get("op") == "pipe":
+        t = c["text"]
+        (model, mraises), = pipeline_model(Driver(), [t])
+        real = pipeline_real(t)
+        print("text :", ascii(t))
+        print("real constructor               :", real[:600])
+        print("model (tokenizer -> handlers -> machine):", model[:600])
+        print("RaisesAt indices: python", raises_at(t), "| lean", mraises)
+        ok = real.split("|")[0] in ("tree", "prm") and (model == real or model == "unescape-raises")
+        return 0 if ok else 1
     if c.get("op") == "sequel":
         first, doc = dec_markup(c["first"]), c["doc"]
         want = fresh_process_trees([doc])[0]
